@@ -8,7 +8,7 @@ import Mathlib.Algebra.Order.BigOperators.Ring.Finset
 C10 — Levenberg–Marquardt: the predicted reduction `δᵀ(μδ + Jᵀr)` is non-negative whenever `μ ≥ 0` and
 `δ` solves the damped normal equations `(JᵀJ + μ·diag(JᵀJ)) δ = Jᵀr` exactly (`lm_pred_nonneg`), about the
 very lists the model computes (`jtjOf` = `matmul … true false`, `damp`, `dot8`), and the resulting descent
-theorem for the whole loop (`lm_descends`).
+theorem for the whole loop with an idealised evaluator (`lm_descends_idealEval`).
 -/
 namespace Cv.C10
 open Cv Cv.AD Cv.Opt Finset
@@ -352,11 +352,15 @@ theorem lmInv_start {σ : Type} (E : LMEval σ α) (R Jf : List α → List α) 
           exact_mod_cast (by norm_num : (0 : Nat) ≤ 2)
         · exact absurd hs (by simp)
 
-/-- **LM descends.**  Over a linearly ordered field, for an evaluator whose residuals and Jacobian are
+/-- **LM descends — for an IDEALISED evaluator only.**  The hypothesis `EvalLaws E R Jf` (laws for ALL
+evaluator states) is NOT satisfied by the shared-tape evaluator of the source (`Cv.C10D.tapeEval_not_evalLaws`);
+the version for the source is `Cv.C10R.lmG_descends_on_sublevel` / `Cv.C10D.lm_core` (laws relative to the
+well-formedness invariant of the tape state).  Kept as the generic skeleton.
+Over a linearly ordered field, for an evaluator whose residuals and Jacobian are
 functions of the parameter values, `tau ≥ 0`, and an exact linear solve at every reachable state:
 for every start and every iteration budget `k`, the state after the loop has
 `rss ≤ rss at the start`, and its residual / `JᵀJ` / `Jᵀr` belong to its parameters. -/
-theorem lm_descends {σ : Type} (E : LMEval σ α) (R Jf : List α → List α) (L : EvalLaws E R Jf)
+theorem lm_descends_idealEval {σ : Type} (E : LMEval σ α) (R Jf : List α → List α) (L : EvalLaws E R Jf)
     (hF : FMaxLaw α) (hn : 0 < E.n) (hshape : ∀ θ, (Jf θ).length = E.n * θ.length ∧ (R θ).length = E.n)
     (h : LMHP α) (htau : 0 ≤ h.tau)
     (hexact : ∀ s, LMInv E R Jf s → SolveExactAt E s)
